@@ -26,6 +26,10 @@ SPEC = {
     ("DoubleEndedIterator", "next_back"): {"inc@some:const1", "finish@none:-"},
     ("Stream", "poll_next"): {"inc@some:const1", "finish@none:-"},
     ("ExactSizeIterator", "len"): set(),
+    ("Iterator", "size_hint"): set(),
+    ("Write", "write_all"): {"inc@ok:len(param)"},
+    ("BufRead", "read_line"): {"inc@ok:inner"},
+    ("BufRead", "read_until"): {"inc@ok:inner"},
     ("Read", "read"): {"inc@ok:inner"},
     ("Read", "read_vectored"): {"inc@ok:inner"},
     ("Read", "read_to_string"): {"inc@ok:inner"},
